@@ -106,10 +106,15 @@ func runCopy(c *Ctx, cc copyCase, idx int) {
 	}
 	to := mk(gTo, 1, id)
 	from := mk(gFrom, 2, "HTTPS://EXAMPLE.com/copy/me/") // an equivalent presentation of the same id
+	judgeCopy(c, cc.Kind, cc.String(), to, from)
+}
+
+// judgeCopy runs the merge and holds the result to the statement's clauses.
+func judgeCopy(c *Ctx, kind vmodel.StructKind, label string, to, from any) {
+	cc := struct{ Kind vmodel.StructKind }{kind}
 	toBefore := vmodel.Canon(to, vmodel.Exact)
 	fromBefore := vmodel.Canon(from, vmodel.Exact)
 	fromCopy := vmodel.DeepCopy(from)
-	label := cc.String()
 	var err error
 	var ret vocab.Item
 	c.Pending("CopyItemProperties " + label)
@@ -161,6 +166,80 @@ func runCopy(c *Ctx, cc copyCase, idx int) {
 	if ds := vmodel.Diff(fromBefore, vmodel.Canon(from, vmodel.Exact)); len(ds) > 0 || !reflect.DeepEqual(fromCopy, from) {
 		fail("-", "-", "from-modified", "from was modified by the merge")
 	}
+}
+
+// aliased cases: list properties that share a backing array - two properties of to, a property of from that is a property of
+// to, a property of from that is a sub-slice of to's. The clauses are the same; what changes is that a merge which recycles
+// to's old storage now shows in another property, or in from.
+type aliasCase struct {
+	Kind   vmodel.StructKind
+	F1, F2 vmodel.Field
+	Mode   string
+}
+
+func aliasCases() []aliasCase {
+	var out []aliasCase
+	for _, kn := range copyKinds {
+		k := vmodel.Kinds[vmodel.KindIndex(kn)]
+		var lists []vmodel.Field
+		for _, f := range copyFields(k) {
+			if f.Type == vmodel.IcT && mergedTerms[f.Term] {
+				lists = append(lists, f)
+			}
+		}
+		for _, f1 := range lists {
+			for _, f2 := range lists {
+				if f1.Name == f2.Name {
+					continue
+				}
+				for _, m := range []string{"to.f1==to.f2", "from.f2==to.f1", "from.f1==to.f1[1:]", "from.f1==to.f2[:1]"} {
+					out = append(out, aliasCase{k, f1, f2, m})
+				}
+			}
+		}
+	}
+	return out
+}
+
+func runAliased(c *Ctx, ac aliasCase, idx int) {
+	mkList := func(base string, n, spare int) vocab.ItemCollection {
+		l := make(vocab.ItemCollection, 0, n+spare)
+		for i := 0; i < n; i++ {
+			if i%2 == 0 {
+				l = append(l, vocab.IRI(fmt.Sprintf("https://example.com/%s/%d", base, i)))
+			} else {
+				l = append(l, &vocab.Object{ID: vocab.IRI(fmt.Sprintf("https://example.com/%s/%d", base, i)), Type: vocab.NoteType})
+			}
+		}
+		return l
+	}
+	typ := vocab.ActivityVocabularyType(ac.Kind.SpecificType())
+	to, from := ac.Kind.New(), ac.Kind.New()
+	tv, fv := reflect.ValueOf(to).Elem(), reflect.ValueOf(from).Elem()
+	tv.FieldByName("ID").Set(reflect.ValueOf(vocab.IRI("https://example.com/copy/me")))
+	fv.FieldByName("ID").Set(reflect.ValueOf(vocab.IRI("https://example.com/copy/me")))
+	tv.FieldByName("Type").Set(reflect.ValueOf(typ))
+	fv.FieldByName("Type").Set(reflect.ValueOf(typ))
+	shared := mkList("old", 3, 3)
+	switch ac.Mode {
+	case "to.f1==to.f2":
+		tv.Field(ac.F1.Index).Set(reflect.ValueOf(shared))
+		tv.Field(ac.F2.Index).Set(reflect.ValueOf(shared))
+		fv.Field(ac.F1.Index).Set(reflect.ValueOf(mkList("new", 1+idx%3, 0)))
+	case "from.f2==to.f1":
+		tv.Field(ac.F1.Index).Set(reflect.ValueOf(shared))
+		fv.Field(ac.F2.Index).Set(reflect.ValueOf(shared))
+		fv.Field(ac.F1.Index).Set(reflect.ValueOf(mkList("new", 1+idx%3, 0)))
+	case "from.f1==to.f1[1:]":
+		tv.Field(ac.F1.Index).Set(reflect.ValueOf(shared))
+		fv.Field(ac.F1.Index).Set(reflect.ValueOf(shared[1:]))
+	default:
+		tv.Field(ac.F1.Index).Set(reflect.ValueOf(mkList("other", 2, 2)))
+		tv.Field(ac.F2.Index).Set(reflect.ValueOf(shared))
+		fv.Field(ac.F1.Index).Set(reflect.ValueOf(shared[:1]))
+	}
+	c.Count("aliased-copies", 1)
+	judgeCopy(c, ac.Kind, fmt.Sprintf("%s aliased lists %s (f1=%s, f2=%s)", ac.Kind.Name, ac.Mode, ac.F1.Term, ac.F2.Term), to, from)
 }
 
 type refusal struct {
@@ -251,6 +330,7 @@ func init() {
 		}
 	}
 	refs := refusals()
+	aliases := aliasCases()
 	Register(&Prop{
 		ID: "C18",
 		Rule: "model: per merged property to' = from if set in from else to; id/type from from; every property of to' is what to had or what from has; nothing set in to and unset in from is lost; from unchanged (deep comparison incl. spare capacity of its lists). " +
@@ -271,6 +351,11 @@ func init() {
 					cc := copyCase{p.k, []vmodel.Field{p.f1, p.f2}, []int{p.c1, p.c2}}
 					c.Distinct(cc.String(), true)
 					runCopy(c, cc, idx)
+				}},
+				{Name: "aliased-lists", N: len(aliases), Exhaustive: true, Run: func(c *Ctx, idx int) {
+					ac := aliases[idx]
+					c.Distinct(fmt.Sprintf("alias|%s|%s|%s|%s", ac.Kind.Name, ac.F1.Term, ac.F2.Term, ac.Mode), true)
+					runAliased(c, ac, idx)
 				}},
 				{Name: "refusals", N: len(refs), Exhaustive: true, Run: func(c *Ctx, idx int) {
 					r := refs[idx]
